@@ -79,7 +79,7 @@ def gen_stray(rnd, snap, cfg):
     elif k == "forged":
         op["cid"] = rnd.choice(snap["tagged"])
         op["inst"] = "forged:" + rnd.choice(["nounderscore", "trail", "nonhex", "empty", "under2", "noserial", "serial+1",
-                                              "serial-trunc", "serial-trunc", "serial-extend", "id-extend"])
+                                              "serial-trunc", "serial-trunc", "serial-extend", "id-extend", "id-garbage", "id-garbage"])
         aw = [s for (c, s) in snap["await"] if c == op["cid"]]
         if aw and rnd.random() < 0.7:
             op["svc"] = rnd.choice(aw)
@@ -588,6 +588,11 @@ class InterleaveProfile:
         convs, cfg = plan["convs"], plan["cfg"]
         results = []
         projs = []
+        if not plan.get("orders"):
+            r = proto.Result()      # fewer than two conversations came about: nothing to compare (as in gen_run)
+            r.hash = "skip"
+            r.nontrivial = False
+            return r
         for n, order in enumerate(plan["orders"]):
             if order == "solo":
                 pj = []
